@@ -50,6 +50,9 @@ fn cw(c: char) -> usize {
 
 fn main() {
     let a = args();
+    V::mark_new_run("c11 earlier command");
+    V::mark_new_run("c11 later command");
+    V::mark_new_run("c11 earlier command");
     quiet_panics();
     let th = *V::DEFAULT_THEME;
     let tags: Vec<Attr> = vec![
@@ -129,6 +132,9 @@ fn main() {
         }).collect();
         let input = format!("w={} h={} (h while moving: {}) reverse={} tabstop={} no_hscroll={} keep_right={} reader_items={} items={:?} ranges={:?} ops={:?}", width, height, height0, reverse, tabstop, no_hscroll, keep_right, use_reader, texts, mrs, ops);
 
+        let rerun = r.chance(1, 5);
+        let rerun_keep = r.chance(1, 2);
+        let input = format!("{} rerun={} {}", input, rerun, rerun_keep);
         let (texts2, mrs2, ops2) = (texts.clone(), mrs.clone(), ops.clone());
         let res = guarded(AssertUnwindSafe(move || {
             let ts = tabstop.to_string();
@@ -141,7 +147,6 @@ fn main() {
                 .build()
                 .unwrap();
             let mut sel = Selection::with_options(&options);
-            let run = V::current_run_num();
             let items: Vec<Arc<dyn SkimItem>> = if use_reader {
                 let opt = SkimItemReaderOption::default().ansi(true).build();
                 let rd = SkimItemReader::new(opt);
@@ -164,6 +169,17 @@ fn main() {
                 mitems.push(MatchedItem { item: it.clone(), rank: [k as i32, 0, 0, 0], matched_range: range, item_idx: k as u32 });
                 shown.push((text, mr));
             }
+            // sometimes the list shown belongs to a command that had been run before another one (its run number is
+            // lower than one the selection has already seen): marks are looked up under the CURRENT run
+            if rerun {
+                V::mark_new_run("c11 later command");
+                sel.append_sorted_items(mitems.clone());
+                sel.handle(&Ev::EvActToggleAll);
+                if rerun_keep { sel.handle(&Ev::EvActToggle); }
+                sel.clear();
+                V::mark_new_run("c11 earlier command");
+            }
+            let run = V::current_run_num();
             sel.append_sorted_items(mitems);
             // a first draw tells the selection its height
             {
